@@ -58,7 +58,7 @@ Proof.
 Qed.
 
 (* --- the hypothesis of the freshness theorem on a concrete history: writes at depth, a silent update, queries, a reverse that moves
-   things and one that moves nothing, a rebind with skip_notification ----------------------------------------------------------------------- *)
+   things and a sort that moves nothing, a rebind with skip_notification, one with notify_parents=False ----------------------------------------------------------------------- *)
 From PG Require Import Model.SymCoreEventsSpec Proofs.SymCoreEventsQuery Proofs.SymCoreEventsFrame Proofs.SymCoreEventsFresh.
 Definition off : scope := mkScope [] [] [false] [].
 Definition hist : list op2 :=
@@ -70,6 +70,7 @@ Definition hist : list op2 :=
     Base (mkSop ns (0%nat, [ka]) (LSort [0; 0; 0] false));
     Base (mkSop ns (0%nat, [ka; KI 1]) (DUpdate [(kb, VLit (LitLeaf (LInt 7)))]));
     RebindX ns (0%nat, []) [([kb], VLit (LitLeaf (LInt 9)))] (Some true) true;
+    RebindX ns (0%nat, [ka]) [([KI 0; kb], VLit (LitLeaf (LInt 4)))] None false;
     Query (0%nat, []) 1 ].
 Ltac next_step :=
   match goal with
@@ -82,7 +83,7 @@ Ltac next_step :=
 Lemma hist_ok : history_ok q0 (mkX st_tree no_caches) hist.
 Proof.
   unfold hist, st_tree. vm_compute init_forest.
-  do 9 next_step. exact I.
+  do 10 next_step. exact I.
 Qed.
 
 (* --- the second open finding: a batch that writes below z[0] and then replaces z[-1] (the same node) -------------------------------------------- *)
